@@ -274,6 +274,7 @@ def runOp (j : Json) : M Json := do
     | "is_primitive" =>
       let n ← liftP (fldStr j "name")
       res (TS.getType ts n) fun t => pure (jOk (Json.bool (TS.isPrimitive K ts t.name)))
+    | "identity" => pure (jOk (Json.bool true))   -- types are names in the model: holds by construction
     | "types" =>
       let b ← liftP (boolD j "built_in" false)
       pure (jOk (jList (fun t => jStr t.name) (TS.getTypes K ts b)))
